@@ -1,11 +1,12 @@
 import Hoot.Props.C05
+import Hoot.Proofs.ReqProof
 
 /-! # C20 — standalone head parsers round-trip well-formed heads and honour their limits
 
 Response side: the scanner theorems hold for every limit `N : Nat` (not only the four the harness can
-instantiate). Request side (`parseReq`, Model/ReqParse.lean): the model is tied to the code by the
-correspondence (every prefix of generated request heads, limits 0/1/4/128, plus the malformed stream);
-its forward/prefix theorems are not proved yet — see `level_note`. -/
+instantiate). Request side (`parseReq`, Model/ReqParse.lean; grammar `RHead` in Proofs/ReqProof.lean: method token, non-empty
+request target over httparse's URI bytes, version 1.0/1.1, fields as for responses): the same three
+theorems, for every limit N. -/
 
 /-- **C20 (response, complete).** A well-formed head with at most `N` fields followed by arbitrary bytes:
     status, version, all fields, and exactly the head's length. -/
@@ -60,3 +61,52 @@ theorem C20_partial_complete (h : Head) (hw : h.wf) (N : Nat) (hs : h.fields.len
     simp [Field.pair]; omega
   unfold keepNonEmpty at h2
   simp [h1, h2, keepNonEmpty]
+
+/-! ## requests -/
+
+def RHead.namesShort (h : RHead) : Prop := ∀ f ∈ h.fields, f.name.length ≤ 65535
+
+theorem rfields_any_long (h : RHead) (hn : h.namesShort) :
+    (h.fields.map Field.pair).any (fun f => decide (f.1.length > 65535)) = false := by
+  simp only [List.any_eq_false, List.mem_map]
+  rintro p ⟨f, hf, rfl⟩
+  have := hn f hf
+  simp [Field.pair]; omega
+
+/-- **C20 (request, complete).** A well-formed request head (method a valid `http::Method`, at most `N`
+    fields) followed by arbitrary bytes: the method, the version, all fields, exactly the head's length. -/
+theorem C20_req_exact (h : RHead) (hw : h.wf) (N : Nat) (hs : h.fields.length ≤ N)
+    (hm : validHttpMethod h.method = true) (hn : h.namesShort) (rest : Bytes) :
+    tryParseRequest N (h.enc ++ rest) =
+      .ok (some (h.enc.length, { method := h.method, version := h.ver, fields := fieldsOf (h.fields.map Field.pair) })) := by
+  unfold tryParseRequest
+  rw [req_forward h hw N hs rest]
+  simp [hm, rfields_any_long h hn]
+
+/-- **C20 (request, incomplete).** Every strict prefix of a request head within the limit is "incomplete". -/
+theorem C20_req_prefix (h : RHead) (hw : h.wf) (N : Nat) (hs : h.fields.length ≤ N) (n : Nat) (hn : n < h.enc.length) :
+    tryParseRequest N (h.enc.take n) = .ok none := by
+  obtain ⟨st, hst⟩ := req_prefix h hw N hs n hn
+  unfold tryParseRequest
+  rw [hst]
+
+/-- **C20 (request, limit exactly).** -/
+theorem C20_req_too_many_iff (h : RHead) (hw : h.wf) (N : Nat) (hm : validHttpMethod h.method = true)
+    (hn : h.namesShort) (rest : Bytes) :
+    tryParseRequest N (h.enc ++ rest) = .error (.api .httpParseTooManyHeaders) ↔ N < h.fields.length := by
+  constructor
+  · intro he
+    by_cases hle : h.fields.length ≤ N
+    · rw [C20_req_exact h hw N hle hm hn rest] at he; simp at he
+    · omega
+  · intro hlt
+    unfold tryParseRequest
+    rw [req_too_many h hw N hlt rest]
+
+/-- non-vacuity: `GET /x HTTP/1.1` with one field -/
+def c20Req : RHead := { method := [71, 69, 84], target := [47, 120], ver := 1, fields := [c05Field] }
+example : c20Req.wf := by
+  refine ⟨by decide, ?_, by decide, ?_, by decide, ?_⟩
+  · intro b hb; simp [c20Req] at hb; rcases hb with rfl | rfl | rfl <;> decide
+  · intro b hb; simp [c20Req] at hb; rcases hb with rfl | rfl <;> decide
+  · intro f hf; simp [c20Req] at hf; subst hf; exact Field.wf_of_wfb _ (by decide +kernel)
